@@ -66,7 +66,7 @@ func runC12(c *core.Ctx) {
 		return
 	}
 	defer pool.Close()
-	perDay := [][]string{{"reg"}, {"reg", "--internal-template-name", "left-aligned"}, {"reg", "--use-old-reg-reporter"}, {"reg", "--totals-only"}, {"csv", "log"}, {"print"}, {"reg", "-f", "P"}, {"reg", "-s", "X"}, {"reg", "-s", "X", "--csv"}}
+	perDay := [][]string{{"reg"}, {"reg", "--internal-template-name", "left-aligned"}, {"reg", "--use-old-reg-reporter"}, {"reg", "--totals-only"}, {"csv", "log"}, {"print"}, {"reg", "-f", "P"}, {"reg", "-s", "X"}, {"reg", "-s", "X", "--csv"}, {"reg", "--shorten"}, {"reg", "--shorten", "--internal-template-name", "left-aligned"}, {"reg", "-f", "."}}
 	// bal --collapse is not composed: which segments it joins depends on the whole tree, so its row set is
 	// not additive over parts (a false alarm of an earlier version of this check, see DESIGN 10.3); C03 covers it
 	period := [][]string{{"bal"}, {"bal", "-s", "X"}, {"report", "totals"}, {"report", "quantity"}}
@@ -117,6 +117,16 @@ func runC12(c *core.Ctx) {
 				pad = "#" + strings.Repeat("p", k-2) + "\n"
 				c.Count("histories_with_a_rune_on_the_4096_byte_boundary", 1)
 			}
+		}
+		if i%5 == 2 && len(w.Log) >= 2 {
+			// two names that --shorten maps to the same label, first seen in different blocks; names of very different
+			// lengths that one regular expression selects (a report that lays out columns over all its rows would show)
+			pre := gen.Name(r, gen.NameOpts{MinLen: 14, MaxLen: 14})
+			suf := gen.Name(r, gen.NameOpts{MinLen: 14, MaxLen: 14})
+			a, b := r.Intn(len(w.Log)), r.Intn(len(w.Log))
+			w.Log[a].Ents = append(w.Log[a].Ents, gen.Ent{Name: pre + "/lettuce/" + suf, Val: gen.Half(3)}, gen.Ent{Name: "tea", Val: gen.Half(2)})
+			w.Log[b].Ents = append(w.Log[b].Ents, gen.Ent{Name: pre + "/cheddar/" + suf, Val: gen.Half(4)}, gen.Ent{Name: "tea/with milk and sugar", Val: gen.Half(5)})
+			c.Count("histories_with_colliding_shortened_names", 1)
 		}
 		X := w.Basics[r.Intn(len(w.Basics))]
 		P := "a"
